@@ -1012,6 +1012,11 @@ def gen_c07(T, tier, seed, budget, out: Outcome):
     out.rule = ("abstract molecules (<=5 atoms over C,N,O,H,D,T,Cl,Fe,Og; charges, radicals, masses incl. explicit zeros) rendered as V3000 with random "
                 "blank runs (1-3), 0-3 continuation cuts at arbitrary positions, shuffled key=value order, 0-2 foreign spec keywords per line (incl. EXACHG), "
                 "3 index maps, optional CRLF. Non-trivial = distinct renderings.")
+    # a quoted string value that contains a blank and a word looking like a charge (lean: Contracts.C07Star.quoted_value_misread)
+    qm = molgen.Mol([{"sym": "C", "x": 0.0, "y": 0.0, "z": 0.0}], [])
+    qtext = ("\n  verif\n\n  0  0  0     0  0            999 V3000\nM  V30 BEGIN CTAB\nM  V30 COUNTS 1 0 0 0 0\nM  V30 BEGIN ATOM\n"
+             "M  V30 1 C 0 0 0 0 CLASS=\"x CHG=5 y\"\nM  V30 END ATOM\nM  V30 END CTAB\nM  END\n")
+    out.run(T, "c07", {"mol": {"atoms": qm.atoms, "bonds": []}, "text": qtext}, qtext)
     for m, star in star_ring_cases(rnd):
         text = molgen.render_v3000(rnd, m, star=star)
         mol_bonds = [list(b) for b in m.bonds] + [[star[0], e, star[2]] for e in star[1]]
